@@ -39,6 +39,12 @@ var c10Roots = []c10Root{
 	{"4k2r/8/8/8/8/8/8/4K2N b k - 0 1", "h8g8 g8h8 e8e7 e7e8 e1d1 d1e1 h1f2 f2h1 h8h1", [2]int{14, 21}},
 	{"k7/8/8/8/8/8/8/K6N w - - 0 1", "a1b1 b1a1 a8b8 b8a8 a1a2 a2a1 a8a7 a7a8 h1f2 f2h1", [2]int{13, 20}},
 	{"7k/5ppp/8/8/8/8/PPP5/K7 w - - 4 9", "a1b1 b1a1 h8g8 g8h8 a2a3 h7h6 a2a4 h7h5", [2]int{15, 22}},
+	{"4k3/8/8/8/1p6/8/P7/4K3 w - - 0 1", "a2a4 a2a3 e1d1 d1e1 e8d8 d8e8 b4a3", [2]int{13, 22}},
+	{"4k3/8/8/8/6p1/8/7P/4K3 w - - 0 1", "h2h4 h2h3 e1d1 d1e1 e8d8 d8e8 g4h3", [2]int{13, 22}},
+	{"4k3/p7/8/1P6/8/8/8/4K3 b - - 0 1", "a7a5 a7a6 e1d1 d1e1 e8d8 d8e8 b5a6", [2]int{13, 22}},
+	{"4k3/7p/8/6P1/8/8/8/4K3 b - - 0 1", "h7h5 h7h6 e1d1 d1e1 e8d8 d8e8 g5h6", [2]int{13, 22}},
+	{"k7/8/8/8/8/8/8/K7 w - - 0 1", "a1b1 b1a2 a2a1 a1a2 a2b1 b1a1 a8b8 b8a7 a7a8 a8a7 a7b8 b8a8", [2]int{12, 16}},
+	{"4k2r/8/8/8/8/8/8/R3K3 w - - 0 1", "a1a3 a3a2 a2a1 a1a2 a2a3 a3a1 h8h6 h6h7 h7h8 h8h7 h7h6 h6h8", [2]int{12, 16}},
 	{"6k1/8/8/8/2pP4/8/8/R3K3 b Q d3 0 1", "g8h8 h8g8 a1b1 b1a1 e1e2 e2e1 c4d3", [2]int{14, 21}},
 }
 
